@@ -35,9 +35,15 @@
 use std::isize;
 use std::marker::PhantomData;
 use std::ops::Deref;
+#[cfg(not(sighook_verif))]
 use std::sync::atomic::{self, AtomicPtr, AtomicUsize, Ordering};
+#[cfg(not(sighook_verif))]
 use std::sync::{Mutex, MutexGuard, PoisonError};
+#[cfg(not(sighook_verif))]
 use std::thread;
+#[cfg(sighook_verif)]
+#[allow(unused_imports)]
+use crate::verif_shim::{atomic::{self, *}, sync::*, thread};
 
 use libc;
 
@@ -58,6 +64,8 @@ impl<'a, T> Deref for ReadGuard<'a, T> {
 
 impl<'a, T> Drop for ReadGuard<'a, T> {
     fn drop(&mut self) {
+        #[cfg(sighook_verif)]
+        crate::verif_shim::event(crate::verif_shim::Event::SectionClose, self.data as *const T as usize, self.lock as *const _ as usize);
         // We effectively unlock; Release would be enough.
         self.lock.fetch_sub(1, Ordering::SeqCst);
     }
@@ -73,16 +81,22 @@ impl<'a, T> WriteGuard<'a, T> {
     pub(crate) fn store(&mut self, val: T) {
         // Move to the heap and convert to raw pointer for AtomicPtr.
         let new = Box::into_raw(Box::new(val));
+        #[cfg(sighook_verif)]
+        crate::verif_shim::event(crate::verif_shim::Event::Alloc, new as usize, self.lock as *const _ as usize);
 
         self.data = unsafe { &*new };
 
         // We can just put the new value in here safely, we worry only about dropping the old one.
         // Release might (?) be enough, to "upload" the data.
         let old = self.lock.data.swap(new, Ordering::SeqCst);
+        #[cfg(sighook_verif)]
+        crate::verif_shim::event(crate::verif_shim::Event::Publish, new as usize, self.lock as *const _ as usize);
 
         // Now we make sure there's no reader having the old data.
         self.lock.write_barrier();
 
+        #[cfg(sighook_verif)]
+        crate::verif_shim::event(crate::verif_shim::Event::Free, old as usize, self.lock as *const _ as usize);
         drop(unsafe { Box::from_raw(old) });
     }
 }
@@ -113,6 +127,8 @@ impl<T> HalfLock<T> {
         // Move to the heap so we can safely point there. Then convert to raw pointer as AtomicPtr
         // operates on raw pointers. The AtomicPtr effectively acts like Box for us semantically.
         let ptr = Box::into_raw(Box::new(data));
+        #[cfg(sighook_verif)]
+        crate::verif_shim::event(crate::verif_shim::Event::Alloc, ptr as usize, 0);
         Self {
             _t: PhantomData,
             data: AtomicPtr::new(ptr),
@@ -148,6 +164,8 @@ impl<T> HalfLock<T> {
         // Acquire should be enough; we need to "download" the data, paired with the swap on the
         // same pointer.
         let data = self.data.load(Ordering::SeqCst);
+        #[cfg(sighook_verif)]
+        crate::verif_shim::event(crate::verif_shim::Event::SectionOpen, data as usize, self as *const _ as usize);
         // Safe:
         // * It did point to valid data when put in.
         // * Protected by lock, so still valid.
@@ -226,6 +244,8 @@ impl<T> Drop for HalfLock<T> {
         unsafe {
             // Acquire should be enough.
             let data = Box::from_raw(self.data.load(Ordering::SeqCst));
+            #[cfg(sighook_verif)]
+            crate::verif_shim::event(crate::verif_shim::Event::Free, &*data as *const T as usize, self as *const _ as usize);
             drop(data);
         }
     }
